@@ -55,7 +55,23 @@ def step (os : OState) (line : String) : OState × String :=
     (os, m ++ "\t" ++ v)
   | "rr" :: _ =>
     -- C16 end to end: whatever bytes arrive as a request head, the client gets a well-formed HTTP response
-    if (fs.drop 1).head? = some "tunnel3" then
+    if (fs.drop 1).head? = some "qpair" then
+      -- C02 / C08: the origin echoes the query it was asked for; every exchange gets the answer for ITS query
+      let q1 := ((fs.drop 2).head?.getD "")
+      let q2 := ((fs.drop 3).head?.getD "")
+      let want (q : String) : String := "200:" ++ String.ofList (Rv.hex ("q=".toList ++ ((Rv.unhex q.toList).getD [])))
+      let got := obs.splitOn " "
+      let m := want q1 ++ " " ++ want q2
+      (os, m ++ "\t" ++
+        (if obs.startsWith "panic" then "bad:panic"
+         else match got with
+         | [g1, g2] =>
+           if g1 = want q1 && g2 = want q2 then "ok"
+           else if q1 ≠ q2 && g2 = want q1 then "bad:distinct-resources-share-an-entry"
+           else if g1.startsWith "200:" && g2.startsWith "200:" then "bad:query-not-passed-through-unchanged"
+           else "ok"   -- a query net/http or the origin refuses: no claim
+         | _ => "ok"))
+    else if (fs.drop 1).head? = some "tunnel3" then
       -- C10 / C01: a response the proxy could not complete is followed by NOTHING on that tunnel (it is closed)
       (os, obs ++ "\t" ++
         (if obs.startsWith "panic" then "bad:panic"
